@@ -154,8 +154,10 @@ func (w *World) exec(cs *clientState, idx int, op Op) *Rec {
 	r.ComInv = b.GetCurrentRevision()
 	ctx := context.Background()
 	w.inflight[task] = r
+	cs.busyNode = op.Node
 	finish := func() {
 		delete(w.inflight, task)
+		cs.busyNode = -1
 		r.Ret = s.StepNo()
 		r.ComRet = b.GetCurrentRevision()
 		r.Done = true
@@ -366,7 +368,7 @@ func (w *World) startConsumer(wa *Watcher) {
 		}
 	}
 	s := w.S
-	w.S.Go("consumer"+strconv.Itoa(wa.Client)+"."+strconv.Itoa(wa.ID), 0, func() {
+	w.S.Go("consumer"+strconv.Itoa(wa.Client)+"."+strconv.Itoa(wa.ID), -1, func() {
 		for {
 			s.YieldUntil("consume", func() bool {
 				return wa.stop || (len(wa.Ch) > 0 && s.StepNo() >= next)
@@ -396,7 +398,7 @@ func (w *World) startConsumer(wa *Watcher) {
 // be called from a task.
 func (w *World) ProbeOp(op Op) *Rec {
 	if w.probe == nil {
-		w.probe = &clientState{id: -2, known: map[string][]uint64{}, tomb: map[string]uint64{}}
+		w.probe = &clientState{id: -2, known: map[string][]uint64{}, tomb: map[string]uint64{}, busyNode: -1}
 	}
 	w.probeIdx++
 	return w.exec(w.probe, w.probeIdx, op)
